@@ -52,6 +52,9 @@ def boot() -> None:
     _booted = True
     os.environ.setdefault(GUARD, "1")
     sys.dont_write_bytecode = True
+    import logging
+
+    logging.disable(logging.CRITICAL)  # the engine logs every step failure; generated runs fail on purpose
     shim = os.path.join(VERIF, "pyshims")
     for p in (SRC["workflows"], SRC["dev_cli"], shim):
         if p not in sys.path:
